@@ -17,15 +17,15 @@ ENV = dict(os.environ, GOFLAGS="-mod=mod", GOPROXY="off", GOSUMDB="off", GOTOOLC
 
 FILE_PROPS = {
     "valid/cache.go": ["C09", "C10", "C08"],
-    "valid/dump.go": ["C20"],
+    "valid/dump.go": ["C20", "C13"],
     "valid/rule.go": ["C14"],
-    "valid/common.go": ["C01", "C02", "C05", "C14", "C15", "C13", "C12"],
+    "valid/common.go": ["C01", "C02", "C05", "C14", "C15", "C13", "C12", "C16", "C04", "C20"],
     "valid/validfn.go": ["C01", "C05", "C15", "C13", "C02"],
     "valid/validstruct.go": ["C02", "C03", "C04", "C16", "C08", "C12", "C13"],
     "valid/abstract.go": ["C17", "C16", "C03", "C02"],
-    "valid/validmap.go": ["C18", "C17", "C03", "C02", "C13"],
-    "valid/validurl.go": ["C18", "C17", "C03", "C02", "C13"],
-    "valid/validvar.go": ["C18", "C03", "C02", "C13", "C05"],
+    "valid/validmap.go": ["C18", "C17", "C03", "C02", "C13", "C16", "C15"],
+    "valid/validurl.go": ["C18", "C17", "C03", "C02", "C13", "C16"],
+    "valid/validvar.go": ["C18", "C03", "C02", "C13", "C05", "C16", "C12"],
     "valid/init.go": ["C05", "C15", "C11", "C12", "C08"],
     "valid/internal/stack.go": ["C14"],
     "valid/internal/common.go": ["C14", "C12"],
